@@ -4,6 +4,8 @@ package geom
 
 func init() {
 	vfHarnesses["C06_marshal"] = vfhC06Marshal
+	vfHarnesses["C06_roundtrip"] = vfhC06RoundTrip
+	vfHarnesses["C06_decode_positions"] = vfhC06DecodePositions
 }
 
 // vfJSONPos: the RFC 7946 position of c: 2 elements, or 3 when 3D; M never.
@@ -103,5 +105,98 @@ func vfhC06Marshal() {
 	vfAssert(err == nil, "marshal succeeds")
 	vfAssert(string(got) == want, "output equals the RFC 7946 rendering")
 	vfAssert(vfJSONBalanced(got), "brackets, braces and strings are balanced")
+	vfReach("end")
+}
+
+// vfGeoJSONExpected: what RFC 7946 can carry of g: M dropped everywhere (the
+// result is XY or XYZ).
+func vfDropM(g Geometry) Geometry {
+	if g.CoordinatesType().Is3D() {
+		return g.ForceCoordinatesType(DimXYZ)
+	}
+	return g.ForceCoordinatesType(DimXY)
+}
+
+// MarshalJSON then UnmarshalGeoJSON returns the original with only the losses
+// the format forces (M dropped; XY and Z bit-identical), through the real
+// second pass of the decoder (json.Unmarshal itself is a model: DESIGN 6).
+func vfhC06RoundTrip() {
+	ct := vfCT("ct")
+	var g Geometry
+	switch vfInt("shape", 0, 5) {
+	case 0:
+		g = NewPoint(vfFiniteCoords("p", ct)).AsGeometry()
+	case 1:
+		g = NewLineString(vfFiniteSeq("l", 2, ct)).AsGeometry()
+	case 2:
+		g = NewPolygon([]LineString{NewLineString(vfFiniteSeq("r0", 4, ct)), NewLineString(vfFiniteSeq("r1", 4, ct))}).AsGeometry()
+	case 3:
+		g = NewMultiPoint([]Point{NewPoint(vfFiniteCoords("a", ct)), NewPoint(vfFiniteCoords("b", ct))}).AsGeometry()
+	case 4:
+		g = NewMultiLineString([]LineString{NewLineString(vfFiniteSeq("s0", 2, ct)), NewLineString(vfFiniteSeq("s1", 2, ct))}).AsGeometry()
+	default:
+		// a collection with an empty Point member next to a member with positions
+		inner := NewGeometryCollection([]Geometry{NewEmptyPoint(ct).AsGeometry(), NewLineString(vfFiniteSeq("l", 2, ct)).AsGeometry()})
+		g = NewGeometryCollection([]Geometry{NewPoint(vfFiniteCoords("p", ct)).AsGeometry(), inner.AsGeometry()}).AsGeometry()
+	}
+	js, err := g.MarshalJSON()
+	vfAssert(err == nil, "marshal succeeds")
+	h, err := UnmarshalGeoJSON(js, NoValidate{})
+	vfAssert(err == nil, "the output decodes")
+	want := vfDropM(g)
+	vfAssert(h.Type() == want.Type(), "same type")
+	vfAssert(h.CoordinatesType() == want.CoordinatesType(), "Z kept, M dropped")
+	vfAssert(vfGeomBits(h, want), "XY and Z ordinates bit-identical, same structure")
+	vfReach("end")
+}
+
+// The decoder on documents built from a grammar: a LineString whose two
+// positions have symbolic lengths 0..5, and a Point of length 0..5.
+func vfhC06DecodePositions() {
+	nums := []string{"1", "2", "3", "4", "5"}
+	pos := func(n int) string {
+		s := "["
+		for i := 0; i < n; i++ {
+			if i > 0 {
+				s += ","
+			}
+			s += nums[i]
+		}
+		return s + "]"
+	}
+	n1, n2 := vfInt("n1", 0, 5), vfInt("n2", 0, 5)
+	doc := `{"type":"LineString","coordinates":[` + pos(n1) + `,` + pos(n2) + `]}`
+	g, err := UnmarshalGeoJSON([]byte(doc), NoValidate{})
+	bad := n1 < 2 || n2 < 2
+	vfAssert((err != nil) == bad, "error iff some position has fewer than 2 elements")
+	if err == nil {
+		vfAssert(g.IsLineString(), "type")
+		want3D := n1 >= 3 && n2 >= 3
+		vfAssert(g.CoordinatesType().Is3D() == want3D, "3D iff every position has at least 3 elements (mixed input decodes as 2D)")
+		vfAssert(!g.CoordinatesType().IsMeasured(), "never measured")
+		seq := g.MustAsLineString().Coordinates()
+		vfAssert(seq.Length() == 2, "two positions")
+		c := seq.Get(1)
+		vfAssert(c.X == 1 && c.Y == 2, "X and Y are the first two elements")
+		if want3D {
+			vfAssert(c.Z == 3, "Z is the third element; further elements are ignored")
+		}
+		vfReach("decoded")
+	} else {
+		vfReach("rejected")
+	}
+	np := vfInt("np", 0, 5)
+	pdoc := `{"type":"Point","coordinates":` + pos(np) + `}`
+	p, err := UnmarshalGeoJSON([]byte(pdoc), NoValidate{})
+	vfAssert((err != nil) == (np == 1), "a Point position of length 1 is an error; length 0 is the empty Point")
+	if err == nil {
+		vfAssert(p.IsPoint() && p.IsEmpty() == (np == 0), "empty iff no elements")
+	}
+	var ls LineString
+	vfAssert((ls.UnmarshalJSON([]byte(pdoc)) == nil) == false, "decoding a Point document into a LineString fails")
+	var pt Point
+	vfAssert((pt.UnmarshalJSON([]byte(pdoc)) == nil) == (np != 1), "decoding into the matching concrete type succeeds")
+	_, err = UnmarshalGeoJSON([]byte(`{"type":"Circle","coordinates":[1,2]}`), NoValidate{})
+	vfAssert(err != nil, "unknown type is an error")
 	vfReach("end")
 }
